@@ -32,6 +32,7 @@ var table = map[string]func(*core.Ctx){
 	"C17": props.C17,
 	"C16": props.C16,
 	"C18": props.C18,
+	"C19": props.C19,
 	"C20": props.C20,
 	"C13": props.C13,
 }
